@@ -154,10 +154,7 @@ theorem opCcs_ext (s : St) (ver : Nat) : Ext s (opCcs s ver).1 := by
   obtain ⟨s2, ev1⟩ := r2
   simp only at h2 ⊢
   split
-  · have h3 := addSubConn_ext s2
-    generalize addSubConn s2 = r3 at h3 ⊢
-    obtain ⟨s3, ok, ev2⟩ := r3
-    exact ((h0.trans h1).trans h2).trans h3
+  · exact ((h0.trans h1).trans h2).trans (enforceMinSize_ext s2 _ _)
   · exact (h0.trans h1).trans h2
 
 theorem updCounter_ext (s : St) (st : CState) (f : Nat → Nat) : Ext s (updCounter s st f) := by
